@@ -802,6 +802,17 @@ def run(ctx: Ctx, rep: Report, tier: str) -> None:
     c08.run(ctx, sub3, tier)
     rep.absorb(sub3, "R06.8")
 
+    # R06.16 a refused assignment leaves an object whose rendered text its own parser accepts: the setters validate
+    # before they store (C05 R05.3 wildcard, R05.17 addresses; C03 R03.18 option) - a half-updated wildcard renders a mask
+    # the same constructor rejects
+    from .c05 import r05_3, rejected_address_changes_nothing
+    from .c08 import rejected_leaves_unchanged
+
+    sub16 = Report("C06")
+    r05_3(ctx, sub16)
+    rejected_address_changes_nothing(ctx, sub16)
+    rejected_leaves_unchanged(ctx, sub16, rid="R03.18", targets=(("Option.line.setter", ("_line",)),), what="the new option text over the old flag and log lists: the entry renders tokens its own reader refuses", inp="o = Option('log'); o.line = 'ack time-range WORK'  # ValueError; o.line renders the refused text")
+    rep.absorb(sub16, "R06.16")
     sub = Report("C06")
     orders = c01.r01_1(ctx, sub)
     c01.r01_2(ctx, sub, orders)
